@@ -649,6 +649,7 @@ impl Scenario for Pipeline {
                 "tui_updates",
                 "tui_draws_with_rows",
                 "mono_clauses_judged",
+                "receptions_pending_after_last_flush",
                 "big_reads",
                 "escaped_1a_in_mlat",
                 "undecodable_receptions",
@@ -1171,20 +1172,38 @@ pub fn execute(plan: &PipelinePlan, prop: &'static str) -> Outcome<PipelinePlan>
     }
     out.count("records_from_dedup", sh.done.len() as u64);
     out.count("records_with_2plus_receivers", multi_rx_records);
-    if complete {
-        // every decodable reception that went through a receiver left dedup
-        for (id, inf) in info.iter() {
-            if inf.decodable && !seen.contains_key(id) {
-                // (hash-map order: report the smallest id for a stable message)
-                let lost = info.iter().filter(|(i, f)| f.decodable && !seen.contains_key(i)).map(|(i, _)| *i).min().unwrap_or(*id);
-                let li = &info[&lost];
-                viols.push(Violation::new(
-                    "c10.1-conservation",
-                    "lost",
-                    format!("pipeline: decodable reception #{} (receiver {}, frame {}, arrived {:.3} s) never left the deduplication although the flush arrivals closed every window", lost, li.rx, world::hex(&li.frame), li.arrive_ns as f64 * 1e-9),
-                ));
-                break;
+    if complete && plan.tap {
+        // Every decodable reception whose window was closed by a later arrival has
+        // left dedup. "Closed" is read off the arrival order and the stamps the
+        // tap saw: a reception stamped s belongs to a group opened at or before s,
+        // so any LATER arrival stamped at or after s + window has closed it. (The
+        // flush arrivals normally do that for everything; under heavy
+        // back-pressure a receiver may hand over — and stamp — an old frame after
+        // the last flush, and that frame legitimately stays pending.)
+        let w_ms = plan.window_ms as i64;
+        let ms = |t: f64| (t * 1e3) as i64;
+        // suffix maximum of the stamps in arrival order
+        let n = sh.tapped.len();
+        let mut later_max = vec![i64::MIN; n + 1];
+        for k in (0..n).rev() {
+            later_max[k] = later_max[k + 1].max(ms(sh.tapped[k].3));
+        }
+        let mut lost: Vec<u32> = Vec::new();
+        for (k, t) in sh.tapped.iter().enumerate() {
+            let id = t.1;
+            let Some(inf) = info.get(&id) else { continue };
+            if inf.decodable && !seen.contains_key(&id) && later_max[k + 1] >= ms(t.3) + w_ms + 1 {
+                lost.push(id);
             }
+        }
+        out.count("receptions_pending_after_last_flush", info.iter().filter(|(i, f)| f.decodable && !seen.contains_key(i)).count() as u64 - lost.len() as u64);
+        if let Some(&l) = lost.iter().min() {
+            let li = &info[&l];
+            viols.push(Violation::new(
+                "c10.1-conservation",
+                "lost",
+                format!("pipeline: decodable reception #{} (receiver {}, frame {}, arrived {:.3} s) never left the deduplication although a later arrival closed its window", l, li.rx, world::hex(&li.frame), li.arrive_ns as f64 * 1e-9),
+            ));
         }
     }
     if plan.tap {
